@@ -97,7 +97,7 @@ def real_solver_search(rep, rng, n):
     methods = ["auto", "SLSQP", "trust-constr", "L-BFGS-B", "BFGS", "Nelder-Mead", "COBYLA", "TNC", "Powell", "CG", "linprog", "highs", "highs-ds"]
     for i in range(n):
         kinds = ["feasible", "infeasible", "bounds", "lp_infeasible", "bound_only", "lp_zero_row", "nlp_zero_row", "lp_eq_infeasible",
-                 "bound_and_looser_row", "objective_swap"]
+                 "bound_and_looser_row", "objective_swap", "lp_strided_views", "upper_bound_zero"]
         kind = kinds[i % len(kinds)]
         x = VectorVariable(f"s{i}", rng.randint(1, 3), lb=rng.choice([None, 0, -1]), ub=rng.choice([None, 2, 5]))
         P = Problem()
@@ -134,6 +134,24 @@ def real_solver_search(rep, rng, n):
             if x.size > 1:
                 x[1].lb, x[1].ub = None, -1.0
                 P.subject_to(x[1] <= 3)
+        elif kind == "lp_strided_views":
+            # transportation-style LP whose rows run over STRIDED views (matrix columns, every other element): demands on columns,
+            # capacities on rows; written with .sum() / c @ view over the views
+            from optyx import MatrixVariable as _MV, VectorVariable as _VVv
+            A_ = _MV(f"T{i}", 2, 3, lb=0.0, ub=20.0)
+            P.minimize(np.array([1.0, 2.0, 3.0]) @ A_[0, :] + np.array([2.0, 1.0, 2.5]) @ A_[1, :])
+            for j_, dmd in enumerate([5.0, 7.0, 3.0]):
+                P.subject_to(A_[:, j_].sum() >= dmd)
+            P.subject_to(A_[0, :].sum() <= 9).subject_to(A_[1, :].sum() <= 8)
+            yv = _VVv(f"e{i}", 6, lb=0.0, ub=10.0)
+            P.subject_to(yv[::2].sum() >= 6).subject_to(yv[1::2].sum() >= 6).subject_to(np.array([1.0, 2.0, 3.0]) @ yv[::2] <= 40)
+            P.subject_to(A_[0, 0] + yv.sum() <= 60)
+        elif kind == "upper_bound_zero":
+            # a bound that is exactly 0 is a bound
+            x[0].lb, x[0].ub = None, 0
+            P.minimize((x[0] - 3) ** 2 + quad)
+            if x.size > 1:
+                x[1].lb, x[1].ub = 0.0, 0.0
         elif kind == "objective_swap":
             # solved once, then the objective is replaced by one over ANOTHER variable set of the same size
             # ([s, t, u] -> [r, s, t]: every position shifts), constraints unchanged
@@ -234,7 +252,7 @@ def run(rep: vk.Report):
         rep.violation({"kind": "correspondence", "obligation": "wrapper outcome = model post_minimize (SolveWrap.v)",
                        "case": cases.terms[i][:4000], "meta": meta, "model": model,
                        "witness": meta if concrete else None}, concrete=concrete)
-    tried, found = real_solver_search(rep, rng, 30 if rep.tier == "quick" else 400)
+    tried, found = real_solver_search(rep, rng, 36 if rep.tier == "quick" else 400)
     cov = rep.coverage
     cov["evaluations"] = len(cases.terms) + tried
     cov["distinct_nontrivial"] = cases.nontrivial
